@@ -13,7 +13,8 @@ RULE = ('a live bot (Owner + Misc loaded, production paths) receives PRIVMSG com
         'commands, nested.maximum, reply.error.detailed, nesting off).  The real tokenizer output is fed to the extracted machine and '
         'spec; call log (plugin, matched command, arguments, main/other thread) and final message are diffed; the post-order law, '
         'at-most-once/exactly-once, single-plugin dispatch, qualified-name, ambiguity and disabled clauses are evaluated directly on '
-        'the implementation.  Histories: `disable [plugin] cmd` / `enable [plugin] cmd` sent by the owner (and by an ordinary user, who '
+        'the implementation; replying commands also use irc.reply keywords (action, noLengthCheck, notice, private, to=) as sub-commands at any depth '
+        'and at top level: the sticky attributes each command inherits and the kind/target of the final message are diffed too.  Histories: `disable [plugin] cmd` / `enable [plugin] cmd` sent by the owner (and by an ordinary user, who '
         'must be refused) interleaved with command lines of an ordinary user over plugins with overlapping commands; after every '
         'operation the reply, Commands._disabled.d and supybot.commands.disabled are diffed against the model, every call is diffed, '
         'and directly: a command runs only if the operations the bot reported as succeeded left it enabled, and a refused operation '
@@ -23,6 +24,7 @@ TRUSTED = ['str.lower() is modelled for ASCII only (generated command tokens are
            'the Python stack capacity is an oracle input (k_budget): inside in_domain (at most T14.STACK_SAFE_SUBS sub-commands = (recursion limit - 200) / 13) '
            'the model runs with STACK_SAFE_SUBS + 1, the assumption stack_holds_domain of the theorem, which the harness re-measures on every run (frames per '
            'sub-command, boundary-size lines in seven shapes); beyond it the budget is the number of sub-commands the implementation completed',
+           'reply attributes: action, noLengthCheck, notice, private, to are modelled (sticky per proxy, merged upwards as reply() does); prefixNick is not (private-query traffic); '
            'sub-callbacks (Commands objects inside a plugin) are modelled one level deep; capability checks of _callCommand are not '
            'modelled (default capabilities allow everything for the unregistered sender)',
            'CommandThread scheduling: the harness joins every thread before reading the log; the model has one control point '
@@ -49,6 +51,41 @@ TECHNIQUE = 'Coq proof (refinement of a frame-stack machine to a recursive evalu
 EXPLANATION = 'C14: evaluation machine and dispatch model of src/callbacks.py; theorems in coq/C14/Props.v'
 
 KINDS = {'reply': 0, 'echo': 1, 'silent': 2, 'mute': 3, 'err': 4, 'crash': 5, 'foreign': 6, 'ign': 7}
+# a replying kind may carry keyword arguments of irc.reply: 'reply+action', 'echo+private+to', ... (to = the nick TO_NICK)
+RFLAGS = ['action', 'nolen', 'notice', 'private', 'to']
+TO_NICK = 'bob'
+
+
+def base(kind):
+    return kind.split('+')[0]
+
+
+def kflags(kind):
+    """[action, noLengthCheck, notice, private, to] of a kind string"""
+    fl = kind.split('+')[1:]
+    return ['action' in fl, 'nolen' in fl, 'notice' in fl, 'private' in fl, TO_NICK if 'to' in fl else '']
+
+
+def kkwargs(kind):
+    fl = kind.split('+')[1:]
+    kw = {}
+    if 'action' in fl:
+        kw['action'] = True
+    if 'nolen' in fl:
+        kw['noLengthCheck'] = True
+    if 'notice' in fl:
+        kw['notice'] = True
+    if 'private' in fl:
+        kw['private'] = True
+    if 'to' in fl:
+        kw['to'] = TO_NICK
+    return kw
+
+
+def proxy_attrs(irc):
+    """the sticky reply attributes of the proxy a command is called with"""
+    return [bool(getattr(irc, 'action', None)), bool(getattr(irc, 'noLengthCheck', None)), bool(getattr(irc, 'notice', None)),
+            bool(getattr(irc, 'private', None)), getattr(irc, 'to', None) or '']
 SENDER = 'u!i@h'
 OWNER = 'boss!boss@owner.example'
 _S = {}
@@ -79,6 +116,7 @@ def bot():
     conf.supybot.abuse.flood.command.setValue(False)
     conf.supybot.abuse.flood.command.invalid.setValue(False)
     conf.supybot.reply.mores.setValue(False)
+    conf.supybot.reply.withNoticeWhenPrivate.setValue(False)     # so that notice=True is observable in a query
     LOG = []
     for cb in irc.callbacks:
         def wrap(cb=cb, orig=cb._callCommand):
@@ -126,12 +164,15 @@ def make_plugins(S, plugins):
     callbacks, conf, irc, LOG = S['callbacks'], S['conf'], S['irc'], S['log']
 
     def mkcmd(owner, cname, kind):
+        kw = kkwargs(kind)
+        kind = base(kind)
+
         def f(self, irc, msg, args):
-            LOG.append([owner, cname, list(args), threading.current_thread() is not threading.main_thread()])
+            LOG.append([owner, cname, list(args), threading.current_thread() is not threading.main_thread(), proxy_attrs(irc)])
             if kind == 'reply':
-                irc.reply('%s.%s(%s)' % (owner, cname, ','.join(args)))
+                irc.reply('%s.%s(%s)' % (owner, cname, ','.join(args)), **kw)
             elif kind == 'echo':
-                irc.reply(' '.join(args))
+                irc.reply(' '.join(args), **kw)
             elif kind == 'silent':
                 irc.noReply()
             elif kind == 'ign':            # what Utilities.ignore does
@@ -239,7 +280,12 @@ def canon_outcome(S, msgs):
             else:
                 out.append(['error', text])
         else:
+            kind = 'notice' if m.command == 'NOTICE' else 'privmsg'
+            mm = re.match('^\x01ACTION ?(.*)\x01$', text, re.S)
+            if mm:
+                kind, text = 'action', mm.group(1)
             out.append(['reply', text])
+            S['meta'] = [kind, m.args[0]]
     return out[0] if len(out) == 1 else ['multiple', out]
 
 
@@ -256,9 +302,11 @@ def impl_run(S, line, sender=SENDER):
     irc = S['irc']
     del S['log'][:]
     del S['sent'][:]
+    S['meta'] = None
     irc.feedMsg(S['ircmsgs'].privmsg('test', line, prefix=sender))
     join_threads(S)
-    return [list(e) for e in S['log']], canon_outcome(S, list(S['sent']))
+    S['attrs'] = [e[4] for e in S['log'] if e[0] != '!foreign']       # inherited reply attributes, per executed command
+    return [list(e[:4]) if e[0] != '!foreign' else list(e) for e in S['log']], canon_outcome(S, list(S['sent']))
 
 
 # ------------------------------------------------------------------ model side
@@ -275,10 +323,10 @@ def model_case(S, inp, table, toks, budget):
     beh = []
     for p in inp['plugins']:
         for c, k in p['cmds']:
-            beh.append([p['name'], '', c, KINDS[k]])
+            beh.append([p['name'], '', c, KINDS[base(k)], kflags(k)])
         for g, gc in p.get('groups', []):
             for c, k in gc:
-                beh.append([p['name'], g, c, KINDS[k]])
+                beh.append([p['name'], g, c, KINDS[base(k)], kflags(k)])
     env = [table, [[c, wire.opt(p)] for c, p in st.get('disabled', [])], [[S['callbacks'].canonicalName(c), p] for c, p in st.get('defaults', [])],
            sorted(st.get('important', S['base_important']))]
     behs = [beh, bool(st.get('detailed', False)), S['conf'].supybot.replies.error(), S['indexerr']]
@@ -303,11 +351,28 @@ def dec_outcome(v):
     return ['?', v]
 
 
+def dec_flags(f):
+    return [bool(f[0]), bool(f[1]), bool(f[2]), bool(f[3]), wire.s(f[4])]
+
+
 def dec_status(v):
     log = [[wire.s(c[0]), wire.ls(c[1]), wire.ls(c[2]), bool(c[3])] for c in v[1]]
+    _M['attrs'] = [dec_flags(c[4]) for c in v[1]]
+    _M['meta'] = None
     if v[0] != 0:
         return log, ['out-of-fuel'], None
-    return log, dec_outcome(v[2]), v[2][0]
+    out = dec_outcome(v[2])
+    _M['raw'] = out
+    if out[0] == 'reply':
+        ra = dec_flags(v[3])           # the attributes the root command's reply is made with -> _makeReply
+        kind = 'action' if ra[0] else ('notice' if ra[2] else 'privmsg')
+        _M['meta'] = [kind, ra[4] if (ra[3] and ra[4]) else SENDER.split('!')[0]]
+        if out[1] == '' and not ra[0]:
+            out = ['reply', _S['C']['empty_msg']]
+    return log, out, v[2][0]
+
+
+_M = {}
 
 
 def resolve_entry(S, table, plug, command):
@@ -350,10 +415,10 @@ def oracle(S, inp, toks, ilog, iout, table):
     kinds = {}
     for p in inp['plugins']:
         for c, k in p['cmds']:
-            kinds[(p['name'], c)] = k
+            kinds[(p['name'], c)] = base(k)
         for g, gc in p.get('groups', []):
             for c, k in gc:
-                kinds[(owner_name(p['name'], g), c)] = k
+                kinds[(owner_name(p['name'], g), c)] = base(k)
     st = inp['settings']
     maxnest = st.get('maxnest', S['C']['nested_max'])
     cn = S['callbacks'].canonicalName
@@ -421,6 +486,8 @@ def oracle(S, inp, toks, ilog, iout, table):
     # every bracket evaluated exactly once unless something legitimately stopped the evaluation
     if r[0] == 'val':
         want = ['none'] if r[1] is None else ['reply', r[1] if r[1] != '' else S['C']['empty_msg']]
+        if r[1] == '' and S.get('meta') and S['meta'][0] == 'action':
+            want = ['reply', '']           # _makeReply lets an empty ACTION through
         if iout != want:
             return 'all sub-commands replied, but the final message is %r instead of %r' % (iout, want)
     else:
@@ -568,7 +635,7 @@ def run_history(ctx, S, inp, kind, with_model=True):
         ctx.fail(inp, fail)
     if not with_model:
         return None
-    beh = [[p['name'], '', c, KINDS[k]] for p in inp['plugins'] for c, k in p['cmds']]
+    beh = [[p['name'], '', c, KINDS[base(k)], kflags(k)] for p in inp['plugins'] for c, k in p['cmds']]
     env = [table, [], [], sorted(S['base_important'])]
     behs = [beh, False, S['conf'].supybot.replies.error(), S['indexerr']]
     return {'hist': True, 'inp': inp, 'table': table, 'obs': obs, 'wire': [3, [env, behs, wsteps]]}
@@ -630,6 +697,7 @@ def run_case(ctx, S, inp, kind, with_model=True):
     else:
         budget = len(ilog) + 1 if (iout == ['none'] and len(ilog) < nsub) else nsub + 5
     return {'inp': inp, 'table': table, 'toks': toks, 'ilog': ilog, 'iout': iout, 'foreign': foreign, 'nsub': nsub, 'budget': budget,
+            'iattrs': S['attrs'], 'imeta': S['meta'],
             'wire': model_case(S, inp, table, toks, budget)}
 
 
@@ -654,17 +722,22 @@ def finish_cases(ctx, S, recs):
             if not (mout == ['foreign'] and k and ilog[:k[0]] == res(mlog[:-1]) and ilog[k[0]][1:] == [mlog[-1][0], mlog[-1][1]]):
                 ctx.disagree(inp, [mlog, mout], [ilog, iout], 'selection of a real plugin command')
             continue
+        mattrs, mmeta, mraw = _M['attrs'], _M['meta'], _M['raw']
         if res(mlog) != ilog or mout != iout:
             ctx.disagree(inp, [res(mlog), mout, len(mlog)], [ilog, iout, len(ilog)], 'call log + final message')
+        elif mattrs != r['iattrs'] or (mout[0] == 'reply' and mmeta != r['imeta']):
+            ctx.disagree(inp, [mattrs, mmeta], [r['iattrs'], r['imeta']],
+                         'reply attributes inherited by each command (action, noLengthCheck, notice, private, to) / kind and target of the final message')
         # the executable spec agrees with the machine whenever the budget suffices (theorem C14_eval_refines)
-        if r['budget'] > r['nsub'] and ([e[:3] for e in mlog] != slog or mout != sout):
+        if r['budget'] > r['nsub'] and ([e[:3] for e in mlog] != slog or mraw != sout):
             ctx.disagree(inp, [mlog, mout], [slog, sout], 'machine vs spec (model-internal)')
 
 
 # ------------------------------------------------------------------ generators
 PNAMES = ['Al', 'Be', 'Ga', 'De', 'FooBar', 'Ep']
 CNAMES = ['a', 'b', 'c', 'e', 'dup', 'al', 'be', 'ga', 'list', 'x1']
-BEHS = ['reply', 'reply', 'reply', 'echo', 'echo', 'silent', 'ign', 'ign', 'mute', 'err', 'crash']
+BEHS = ['reply', 'reply', 'reply', 'echo', 'echo', 'silent', 'ign', 'ign', 'mute', 'err', 'crash',
+        'reply+action', 'echo+action', 'echo+nolen', 'reply+notice', 'echo+private', 'echo+to', 'reply+private+to', 'echo+notice+action']
 WORDS = ['1', 'x', 'Hello', 'a', 'dup', 'é', 'A-B', 'al', 'be', 'Al', 'foo_', '-', 'two words', '', 'ß', 'E', 'DUP', 'a_', 'b-']
 
 
@@ -748,7 +821,14 @@ CORPUS = [
       'a []', 'a [nosuch]', '[e a] 5', 'e', 'e [e]', 's', '[s]', 'a [[s]]', 'b [b [a]]', 'e [e ""] x', 'al', 'a [b [a [b]]] [b]', 'e [s] [s]',
       'e [e [e [e [e [e [e [e [e [e [e 1]]]]]]]]]]', 'e [e [e [e [e [e [e [e [e [e [e [e 1]]]]]]]]]]]',
       'a [a 1] [e [e [e [e [e [e [e [e [e [e [e [e 1]]]]]]]]]]]]', 'list', 'help a', 'a [dup]', 'a-', 'A_ 1', '-a']),
-    # ignore-style sub-commands (tag 'ignored' + noReply) before, between, after replying siblings, nested, threaded, at the root
+    # sub-commands replying with action= / noLengthCheck= / notice= / private= / to=: the text still becomes the argument, at any depth
+    ({'plugins': [{'name': 'Al', 'cmds': [['echo', 'echo'], ['act', 'echo+action'], ['nl', 'echo+nolen'], ['nt', 'echo+notice'], ['pv', 'echo+private'],
+                                          ['tob', 'echo+to'], ['pvto', 'reply+private+to'], ['a', 'reply'], ['s', 'silent'], ['ign', 'ign']]},
+                  {'name': 'Be', 'threaded': True, 'cmds': [['tact', 'echo+action'], ['b', 'reply']]}],
+      'settings': {}},
+     ['echo x [act hello] y', 'a [a 1] [act 2] [a 3]', 'act 1', 'echo [echo [act a] b] c', 'echo [nl x] y', 'echo [nt x] [pv y] [tob z]',
+      'echo [pvto 1] 2', 'pvto 1', 'nt 1', 'pv 1', 'tob 1', 'nl 1', 'echo [tact 1] [act 2] 3', 'echo [act 1] [tact 2] [b]', 'act', 'echo [act]',
+      'echo [s [act x]] y', 'echo [[s [act x]]] y', '[[s [act x]]]', 'echo [ign] [act 1] [nt 2]', 'echo [act [nt [pv x]]]', 'a [act 1] [s] [nl 2]']),
     ({'plugins': [{'name': 'Al', 'cmds': [['echo', 'echo'], ['ign', 'ign'], ['a', 'reply'], ['s', 'silent'], ['x', 'err']]},
                   {'name': 'Be', 'threaded': True, 'cmds': [['b', 'reply'], ['ti', 'ign']]}],
       'settings': {}},
